@@ -647,6 +647,74 @@ def model_line(case, src, mode: str = "fixed") -> str | None:
     return " ".join(head + toks)
 
 
+def _hx_rmap(m: dict) -> list[str] | None:
+    toks = [str(len(m))]
+    for k, v in m.items():
+        if v is None:
+            toks += [hexs(k), "2"]
+        elif isinstance(v, list):
+            toks += [hexs(k), "1", str(len(v))] + [hexs(c) for c in v]
+        elif isinstance(v, str):
+            toks += [hexs(k), "0", hexs(v)]
+        else:
+            return None
+    return toks
+
+
+def model_line_x(case, src) -> str | None:
+    """the extended import model (FtModel/ImportExt.lean, family IMX, package R8I): GEFF stores that are
+    imported with an edge key map and / or blank (None) entries in the node key map, through
+    `import_from_geff` (entry `w`)"""
+    if src is None or src.get("kind") != "graph" or not case.get("enm"):
+        return None
+    ft = _ft()
+    nm = eff_nm(case)
+    if "track_id" in nm or "lineage_id" in nm:
+        exp = classify(case, src)
+        if exp["expect"] == "import" and not exp["ids_valid"]:
+            return None
+    rm, em = _hx_rmap(case["nm"]), _hx_rmap(case["enm"])
+    if rm is None or em is None:
+        return None
+    toks = ["IMX", "geff", "w", str(len(ft["spatial"]))] + [hexs(k) for k in ft["spatial"]]
+    toks += rm + [str(len(src["header"]))] + [hexs(c) for c in src["header"]]
+    eh = list(case.get("eprops") or {})
+    toks += em + [str(len(eh))] + [hexs(c) for c in eh]
+    toks.append(str(len(src["nodes"])))
+    for n in src["nodes"]:
+        toks.append(str(n["id"]))
+        toks += _hx_cells(n["cells"], src["header"])
+    toks.append(str(len(src["edges"])))
+    for i, (u, v) in enumerate(src["edges"]):
+        cells = {pn: val_of(d["values"][i]) for pn, d in (case.get("eprops") or {}).items() if d["values"][i] is not None}
+        toks += [str(u), str(v)] + _hx_cells(cells, eh)
+    return " ".join(toks)
+
+
+def canon_real_x(case, real) -> str:
+    if real["status"] == "hang":
+        return "hang"
+    if real["status"] == "err":
+        if real["exc"] == "GroupNotFoundError":
+            return "err:GroupNotFoundError"
+        if real["exc"] == "ValueError":
+            if re.search(r"edge_name_map contains mappings to non-existent", real["msg"]):
+                return "err:edgeUnknownColumn"
+            if re.search(r"cannot be shared between nodes and edges", real["msg"]):
+                return "err:keyCollision"
+        return err_kind(real)
+    base = canon_real(case, real).split(" ")
+    i = base.index("edges")
+    toks = base[:i] + ["edges", str(len(real["edges"]))]
+    for u, v in real["edges"]:
+        a = real["eattrs"].get((u, v), {})
+        es = sorted((hexs(k), _hx_val(val_of(x))) for k, x in a.items() if x is not None and not _isna(x))
+        toks += [str(u), str(v), str(len(es))]
+        for k, x in es:
+            toks += [k] + x
+    return " ".join(toks)
+
+
 def canon_real(case, real) -> str:
     if real["status"] == "hang":
         return "hang"
@@ -1348,6 +1416,8 @@ def _shard(args) -> Result:
     res = Result(rule=RULE)
     lines: list[str] = []
     pend: list[tuple[dict, str]] = []
+    xlines: list[str] = []
+    xpend: list[tuple[dict, str]] = []
     oracle_seen: dict[str, int] = {}
     for _i in range(n_cases):
         case = gen_case(rng, intensify)
@@ -1407,13 +1477,32 @@ def _shard(args) -> Result:
             continue
         lines.append(line)
         pend.append((case, canon_real(case, real)))
+        xl = model_line_x(case, src)
+        if xl is not None:
+            xlines.append(xl)
+            xpend.append((case, canon_real_x(case, real)))
     try:
         drv = Driver()
         outs = drv.run(lines)
+        xouts = drv.run(xlines) if xlines else []
     except Exception as e:  # noqa: BLE001
         res.notes.append(f"driver failure: {e}")
         res.failures.append(Failure("divergence", PROP, "C12|driver|unavailable", str(e)[:300], {}))
         return res
+    nx_ = 0
+    for (case, creal), mout in zip(xpend, xouts):
+        res.compared_steps += 1
+        res.count("imx:" + creal.split(" ")[0])
+        if mout == "bad-op":
+            res.count("imx:model-bad-op")
+            continue
+        if creal != mout:
+            nx_ += 1
+            res.count("imx:divergent-cases")
+            if nx_ <= 2:
+                res.failures.append(Failure("divergence", PROP, f"C12|imx-model-vs-code|geff|" + _div_kind(creal, mout),
+                                            f"extended import model (edge properties / blank entries): real: {creal[:300]} | model: {mout[:300]}",
+                                            {"case": case}))
     ndiv = 0
     for (case, creal), mout in zip(pend, outs):
         res.compared_steps += 1
